@@ -65,6 +65,11 @@ def canon_generic(s):
     s = re.sub(r"\{closure@[^}]*\}", "{closure}", s)
     return s
 
+def subst_ty(a, subst):
+    if not subst:
+        return a
+    return re.sub(r"\b(%s)\b" % "|".join(re.escape(k) for k in sorted(subst, key=len, reverse=True)), lambda m: subst[m.group(1)], a)
+
 def is_const(t):
     return tag(t) == "const"
 
@@ -101,9 +106,10 @@ def in_range(ty, v):
 COVERED = set()     # idents of every body evaluated (entry or inlined) in this process
 
 class Frame:
-    __slots__ = ("body", "mir", "locs", "ret_to", "depth", "visited", "seen_at", "revisits")
+    __slots__ = ("body", "mir", "locs", "ret_to", "depth", "visited", "seen_at", "revisits", "subst")
     def __init__(self, body, mir, locs, ret_to, depth):
         self.body = body; self.mir = mir; self.locs = locs; self.ret_to = ret_to
+        self.subst = {}         # generic parameter name -> concrete type (frames of inlined generic helpers)
         self.depth = depth; self.visited = frozenset()
         self.seen_at = {}       # block -> number of symbolic forks on the path when last visited
         self.revisits = 0
@@ -119,6 +125,7 @@ class State:
             g = Frame(f.body, f.mir, f.locs, f.ret_to, f.depth)
             g.visited = f.visited
             g.seen_at = dict(f.seen_at); g.revisits = f.revisits
+            g.subst = f.subst
             s.frames.append(g)
         s.store = dict(self.store); s.known = dict(self.known); s.nloc = self.nloc
         s.asserts = list(self.asserts)
@@ -127,6 +134,14 @@ class State:
     def alloc(self):
         self.nloc[0] += 1
         return self.nloc[0]
+
+def const_range(v):
+    """(integer type, lo, hi) of a `lo..hi` value with constant bounds"""
+    if tag(v) == "agg" and v[1][0] == "adt" and v[1][1] == "core::ops::Range" and len(v[2]) == 2 \
+            and all(tag(x) == "const" and x[1] in INT_BITS for x in v[2]) and v[2][0][1] == v[2][1][1]:
+        ty = v[2][0][1]
+        return ty, to_signed(ty, v[2][0][2]), to_signed(ty, v[2][1][2])
+    return None
 
 class Policy:
     """What to inline and how to name opaque calls."""
@@ -263,7 +278,8 @@ class Policy:
         if self.is_accessor(callee):
             return True
         if self.level == "none":
-            return False
+            # only explicitly named helpers (classification functions that build no TwoFloat)
+            return callee.ident() in self.inline_extra and not self.has_loop_or_recursion(callee) and depth < self.max_depth
         if callee.kind == "Closure":
             # a closure called directly is private code of its parent (one with a loop stays a call)
             return not self.has_loop_or_recursion(callee)
@@ -294,6 +310,7 @@ class Exec:
         self.iterated = []          # (carray, lo, hi) of every constant table iterated over
         self._loopinfo = {}
         self.loop_entries = []      # (body ident, head, {local: (value before the loop, havoc term)})
+        self.stop = None            # (frame depth, blocks): leaving these blocks at that depth ends the run ("exit",)
 
     # ------------------------------------------------------------ loops
     def loop_info(self, mir):
@@ -400,7 +417,34 @@ class Exec:
             if tag(v) == "ref":
                 self.hv += 1
                 self.store_to(st, v[1], tuple(v[2]), mk("havoc", self.hv, "pointee"))
+        if self.hooks is not None and hasattr(self.hooks, "loop_invariants"):
+            for c, v in self.hooks.loop_invariants(self, st, fr, head, entry):
+                st.known[c] = v
         return sorted(assigned)
+
+    def iterate_once(self, st, fr, head, extra_known, hooks):
+        """one symbolic iteration of the loop at `head` from the (havoc'd) state `st`:
+        [(facts assumed on the way, {local: value at the back edge})] for every path that returns to `head`"""
+        cs, assigned, through = self.loop_info(fr.mir)[head]
+        sub = Exec(self.facts, self.policy, max_nodes=6000, loops=self.loops, hooks=hooks)
+        sub.hv = self.hv + 100000
+        sub.param_locs = getattr(self, "param_locs", {})
+        sub.stop = (len(st.frames), frozenset(cs))
+        s2 = st.fork()
+        s2.nloc = [st.nloc[0] + 100000]
+        s2.known.update(extra_known)
+        f2 = s2.frames[-1]
+        f2.visited = frozenset(); f2.seen_at = {head: -1}; f2.revisits = 0
+        tree = sub.exec_block(s2, head)
+        out = []
+        for path, leaf in leaves(tree):
+            if leaf[0] == "backedge" and leaf[1] == fr.body.ident() and leaf[2] == head:
+                known = dict(st.known); known.update(extra_known)
+                for c, v in path:
+                    if v is True or v is False:
+                        known[c] = 1 if v else 0
+                out.append((known, dict(leaf[3])))
+        return out
 
     # ------------------------------------------------------------ entry
     def run_body(self, body, args=None):
@@ -443,6 +487,12 @@ class Exec:
         if e == "deref":
             if tag(v) == "ref":
                 return self.load(st, v[1], v[2])
+            if tag(v) == "vref":
+                # a value reference names  v[1] projected by v[2]
+                t = v[1]
+                for e2 in v[2]:
+                    t = self.project(st, t, e2)
+                return t
             return mk("deref", v)
         etag = e[0]
         if etag == "f":
@@ -582,6 +632,9 @@ class Exec:
                 v = self.load(st, cur_loc, tuple(cur_proj))
                 if tag(v) == "ref":
                     cur_loc, cur_proj = v[1], list(v[2])
+                elif tag(v) == "vref":
+                    # reborrow of a value reference
+                    return mk("vref", v[1], tuple(v[2]) + tuple(proj[proj.index(e) + 1:]))
                 else:
                     # reference to something behind an opaque pointer: keep as a value reference
                     return mk("vref", mk("deref", v), tuple(proj[proj.index(e) + 1:]))
@@ -822,6 +875,26 @@ class Exec:
         name = F.norm_path(r["def"]) + (("<" + ",".join(ga) + ">") if ga else "")
         return name, None, r
 
+    def resolve_generic(self, fr, f):
+        """a trait call that the compiler could not resolve inside a generic helper, re-resolved with the
+        type arguments of the inlined instance: local impls by identity, Into through its blanket impl"""
+        args = [subst_ty(a, fr.subst) for a in f.get("args", [])]
+        if args == list(f.get("args", [])) or not args:
+            return f
+        d = F.norm_path(f["def"])
+        trait, _, meth = d.rpartition("::")
+        selfty = canon_generic(args[0]); targs = [canon_generic(a) for a in args[1:]]
+        if d == "core::convert::Into::into" and len(args) == 2:
+            return {"def": f["def"], "args": args, "res": {"def": "<T as core::convert::Into<U>>::into", "args": args, "local": False}}
+        if d == "core::convert::From::from" and len(args) == 2 and selfty == targs[0]:
+            return {"def": f["def"], "args": args, "res": {"def": "<T as core::convert::From<T>>::from", "args": args[:1], "local": False}}
+        for n in range(len(targs), -1, -1):
+            ident = ("<%s as %s<%s>>::%s" % (selfty, trait, ",".join(targs[:n]), meth)) if n else ("<%s as %s>::%s" % (selfty, trait, meth))
+            b = self.facts.get(ident)
+            if b is not None:
+                return {"def": f["def"], "args": args, "res": {"def": b.path, "key": b.key, "args": [], "local": True}}
+        return dict(f, args=args)
+
     def deref_value(self, st, v, depth=0):
         """Replace references by the values they point to (for pure opaque calls)."""
         if tag(v) == "ref":
@@ -847,6 +920,9 @@ class Exec:
                 return ("inline", b)
             if T == U:
                 return ("value", args[0])
+            if T in INT_BITS and U in INT_BITS:
+                # the integer From impls of core are the lossless `as` conversions
+                return ("value", self.cast("IntToInt", T, U, self.deref_value(st, args[0])))
             return ("value", mk("call", "From<%s> for %s" % (T, U), self.deref_value(st, args[0])))
         if base == "<T as core::convert::From<T>>::from":
             return ("value", args[0])
@@ -868,9 +944,18 @@ class Exec:
     def concrete_loop(self, st, fr, head):
         """a loop driven by a concrete slice iterator held in a local (then it is unrolled, not havoc'd)"""
         cs, assigned, through = self.loop_info(fr.mir)[head]
+        range_next = False
+        for bi in cs:
+            t = fr.mir["blocks"][bi]["t"]
+            if t["k"] == "call" and "f" in t:
+                d = F.norm_path(((t["f"].get("res") or t["f"]).get("def", "")))
+                if d.endswith("core::ops::Range<A>>::next"):
+                    range_next = True
         for l in range(len(fr.mir["locals"])):
             v = st.store.get(fr.locs[l])
             if tag(v) == "sliceiter":
+                return True
+            if range_next and const_range(v) is not None and "Range<" in fr.mir["locals"][l]["ty"]:
                 return True
         return False
 
@@ -890,6 +975,19 @@ class Exec:
                 return mk("sliceiter", sl[0], sl[1], sl[2], 0)
             return None
         a0 = self.deref_value(st, args[0]) if args else None
+        cr = const_range(a0)
+        if cr is not None:
+            # `lo..hi` with constant integer bounds: a loop with a concrete trip count
+            if base.endswith("IntoIterator>::into_iter") or base.startswith("core::iter::IntoIterator::into_iter") or "IntoIterator for I>::into_iter" in base:
+                return a0
+            if base.endswith("core::ops::Range<A>>::next") and tag(raw_args[0]) == "ref":
+                ty, lo, hi = cr
+                if lo >= hi:
+                    return mk("agg", ("adt", "core::option::Option", 0, "None"), ())
+                ra = raw_args[0]
+                self.store_to(st, ra[1], tuple(ra[2]), mk("agg", a0[1], (mk_const(ty, from_signed(ty, lo + 1)), a0[2][1])))
+                return mk("agg", ("adt", "core::option::Option", 1, "Some"), (a0[2][0],))
+            return None
         if tag(a0) != "sliceiter" and not (base.startswith("core::option::Option::<T>::unwrap") or base.startswith("core::option::Option::<T>::expect")
                                            or base.startswith("core::mem::replace") or base.startswith("core::mem::swap")):
             return None
@@ -977,6 +1075,14 @@ class Exec:
                         return mk("call", "libm::fabs", x[2])
         if base in ("core::f64::<impl f64>::abs",) and len(args) == 1:
             return mk("call", "libm::fabs", self.deref_value(st, args[0]))
+        m = re.match(r"^core::convert::num::<impl core::convert::From<(\w+)> for (\w+)>::from$", base)
+        if m and len(args) == 1:
+            # the numeric From impls of core are the lossless `as` conversions
+            T, U = m.group(1), m.group(2)
+            if T in INT_BITS and U in INT_BITS:
+                return self.cast("IntToInt", T, U, self.deref_value(st, args[0]))
+            if T in INT_BITS and U == "f64":
+                return self.cast("IntToFloat", T, U, self.deref_value(st, args[0]))
         if base == "<f64 as core::default::Default>::default":
             return f64c(0.0)
         if base == "core::f64::<impl f64>::recip":
@@ -989,7 +1095,10 @@ class Exec:
             fv = self.operand(st, fr, t["fop"])
             name, callee, r = "indirect", None, None
             return self.opaque_call(st, fr, t, "indirect:" + repr(fv)[:40], args)
-        name, callee, r = self.callee_name(t["f"])
+        fdesc = t["f"]
+        if fdesc.get("res") is None and fr.subst:
+            fdesc = self.resolve_generic(fr, fdesc)
+        name, callee, r = self.callee_name(fdesc)
         if callee is None:
             pv = self.primitive_foreign(st, name, r, args)
             if pv is not None:
@@ -1014,6 +1123,10 @@ class Exec:
                 mir = callee.mir
                 locs = {i: st.alloc() for i in range(len(mir["locals"]))}
                 nf = Frame(callee, mir, locs, (t["dest"], t["t"]), fr.depth + 1)
+                if callee.kind == "Closure":
+                    nf.subst = fr.subst
+                elif callee.generics and r is not None and len(callee.generics) == len(r.get("args", [])):
+                    nf.subst = {g: subst_ty(a, fr.subst) for g, a in zip(callee.generics, r["args"])}
                 via_fn_trait = callee.kind == "Closure" and "f" in t and re.search(r"ops::function::Fn(Mut|Once)?::call(_mut|_once)?$|ops::Fn(Mut|Once)?::call(_mut|_once)?$", F.norm_path(t["f"]["def"]))
                 if callee.kind == "Closure" and len(args) == 2 and (via_fn_trait or len(args) != mir["arg_count"]):
                     # Fn*/FnMut/FnOnce::call*(closure, (a, b, ..)): spread the argument tuple
@@ -1073,6 +1186,9 @@ class Exec:
                 self.store_to(st, a0[1], tuple(a0[2]), term)
                 self.write_place(st, fr, t["dest"], mk("unit"))
                 return None
+        if name.startswith("core::fmt::Arguments::<>::new"):
+            # the source position of the format_args! links the call to the template recorded from the AST
+            pure_args = list(pure_args) + [mk("site", t.get("usp") or t["sp"])]
         term = mk("call", name, *pure_args)
         for i in muts:
             a = args[i]
@@ -1098,6 +1214,8 @@ class Exec:
             if self.nodes > self.max_nodes:
                 raise Unsupported("node budget exceeded")
             fr = st.frames[-1]
+            if self.stop is not None and len(st.frames) == self.stop[0] and bi not in self.stop[1]:
+                return ("exit",)
             if bi in fr.visited and fr.seen_at.get(bi) == st.nforks and fr.revisits < 400:
                 # the path from this block back to itself took no symbolic branch: a loop with a concrete
                 # trip count (iteration over a constant table) is unrolled
